@@ -1,8 +1,8 @@
 ---- MODULE MC_Registry ----
 EXTENDS Registry
 \* class ids: A1 and A2 are two DIFFERENT classes both named "A"
-CS == { <<>>, <<"A1">>, <<"A2">>, <<"A1", "B">>, <<"E">> }
-CSQ == { <<>>, <<"A1">>, <<"A2">> }
+CS == { <<>>, <<"A1">>, <<"A2">>, <<"A1", "B">>, <<"E">>, <<"A1", "S1">>, <<"A2", "S2">> }
+CSQ == { <<>>, <<"A1", "S1">>, <<"A2", "S2">> }
 LA == {"x1", "xabc", "tagA", "y2", "r", "bad"}
 LAQ == {"x1", "xabc", "bad"}
 DA == {"plain", "objA1", "objA2", "enumr"}
